@@ -4,6 +4,7 @@ import (
 	"fmt"
 	"strings"
 	"testing"
+	"time"
 
 	"github.com/pion/dtls/v3/zzverif/checks"
 	"github.com/pion/dtls/v3/zzverif/run"
@@ -23,6 +24,7 @@ type Step struct {
 	Edits  []Edit
 	Mask   world.Mask
 	Tamper string
+	GiveUp time.Duration // > 0: both applications abandon this connection's handshake after that much fake time
 }
 
 // Plan is one enumerated history.
@@ -48,6 +50,9 @@ func (p Plan) ID() string {
 		}
 		if s.Tamper != "" {
 			x += "!" + s.Tamper
+		}
+		if s.GiveUp > 0 {
+			x = strings.Replace(x, "@"+s.Mask.String(), fmt.Sprintf("@blackout[%s..]", s.Mask[0]), 1) + fmt.Sprintf("~giveup%s", s.GiveUp)
 		}
 		parts = append(parts, x)
 	}
@@ -90,6 +95,7 @@ func runPlan(t *testing.T, p *world.PKI, pl Plan, seed uint64) run.Outcome {
 			if st.Tamper != "" {
 				tam = MakeTamperer(h, st.Tamper, &failed)
 			}
+			h.GiveUp = st.GiveUp
 			r, err := h.Connect(w, p, i+1, st.Mask, st.Tamper, tam, tr)
 			if err != nil {
 				fail(fmt.Sprintf("conn%d: %v", i+1, err))
@@ -229,6 +235,29 @@ func Plans(thorough bool) ([]Plan, map[string]any) {
 			out = append(out, Plan{"T", c, []Step{{Edits: []Edit{EdNone}, Tamper: k}, {Edits: []Edit{EdNone}}}})
 			out = append(out, Plan{"T", c, []Step{{Edits: []Edit{EdSwapC, EdSwapS}, Tamper: k}, {Edits: []Edit{EdNone}}}})
 			out = append(out, Plan{"T", c, []Step{{Edits: []Edit{EdNone}}, {Edits: []Edit{EdNone}, Tamper: k}}})
+		}
+	}
+	// B: a connection whose handshake is cut off without any alert — every datagram of one direction is lost until
+	// the application gives up and closes — then a clean connection. What an interrupted (abbreviated or, after
+	// delC, full) handshake leaves in the stores must still be what was stored.
+	for _, c := range cfgs {
+		if c.MTU != 0 {
+			continue
+		}
+		for _, fromClient := range []bool{false, true} {
+			var m world.Mask
+			from := 0
+			if fromClient {
+				from = 1 // the first ClientHello arrives: the server has started
+			}
+			for i := from; i < from+10; i++ {
+				m = append(m, world.Fault{FromClient: fromClient, Idx: i, Act: world.ActDrop})
+			}
+			for _, e := range []Edit{EdNone, EdDelC, EdSwapS} {
+				for _, g := range []time.Duration{500 * time.Millisecond, 4 * time.Second} {
+					out = append(out, Plan{"B", c, []Step{{Edits: []Edit{e}, Mask: m, GiveUp: g}, {Edits: []Edit{EdNone}}}})
+				}
+			}
 		}
 	}
 	// J: an undecodable unauthenticated record during a FULL handshake (the client's session is deleted
